@@ -1,7 +1,9 @@
 (* OCaml side of the C04 correspondence.  Glue only: parsing of the case format (gen/valid_gen.py: to_tokens) into the
    Coq values, printing of the issue multiset.  All property logic is the extracted ValidDefs.validate.
 
-   driver run <cases> [early|noearly]   one line per world:  "<rule int>*<count> ..." sorted by rule int (ints from the
+   driver run <cases> [fixed|unfixed|<4 bits: reset_set math_qual isrc_once name_pairs>] [early|noearly]
+                                        (defaults: ValidDefs.current_fixes, ValidDefs.current_early)
+                                        one line per world:  "<rule int>*<count> ..." sorted by rule int (ints from the
                                         regenerated ReferenceRule enum; a pseudo rule prints as its name), "-" when empty
    driver rules                         "<int> <name>" for every rule the model can cite
    driver xmlname <hexfile>             one line per hex string: is_xml_name is_ident *)
@@ -140,7 +142,14 @@ let () =
      with End_of_file -> ());
     close_in ic
   | "run" ->
-    let early = not (Array.length Sys.argv > 3 && Sys.argv.(3) = "noearly") in
+    let fx = if Array.length Sys.argv > 3 then
+        (match Sys.argv.(3) with
+         | "fixed" -> all_fixed | "unfixed" -> unfixed | "current" -> current_fixes
+         | b when String.length b = 4 ->
+           { fx_reset_set = b.[0] = '1'; fx_math_qual = b.[1] = '1'; fx_isrc_once = b.[2] = '1'; fx_name_pairs = b.[3] = '1' }
+         | _ -> failwith "bad fixes argument")
+      else current_fixes in
+    let early = if Array.length Sys.argv > 4 then Sys.argv.(4) = "early" else current_early in
     let ic = open_in Sys.argv.(2) in
     (try
        while true do
@@ -148,7 +157,7 @@ let () =
          let out =
            try
              let w = world line in
-             let is = validate ueq_c08 early w in
+             let is = validate fx ueq_c08 early w in
              let tbl = Hashtbl.create 16 in
              List.iter (fun (_, r) ->
                  let k = (rule_key r, rule_txt r) in
